@@ -6,13 +6,15 @@ import (
 	"bytes"
 	"context"
 	"fmt"
-	"time"
 	"os"
 	"os/exec"
 	"path/filepath"
+	"regexp"
 	"sort"
+	"strconv"
 	"strings"
 	"sync"
+	"time"
 
 	"github.com/BlackVectorOps/semantic_firewall/v3/internal/cli"
 	"github.com/BlackVectorOps/semantic_firewall/v3/pkg/analysis/ir"
@@ -298,6 +300,23 @@ func suiteRefactor(c *Ctx) error {
 
 // ---------------------------------------------------------------- C03 + C04
 
+var constTokenRe = regexp.MustCompile(`const\(("(?:[^"\\]|\\.)*"|-?[0-9]+)\)`)
+
+// maskAbstractedLiterals replaces, in a KeepAllLiterals canonical IR, every string literal and every
+// integer literal outside the default policy's small range [-16, 16] by a placeholder.
+func maskAbstractedLiterals(irText string) string {
+	return constTokenRe.ReplaceAllStringFunc(irText, func(tok string) string {
+		body := tok[len("const(") : len(tok)-1]
+		if strings.HasPrefix(body, "\"") {
+			return "const(<str>)"
+		}
+		if n, err := strconv.ParseInt(body, 10, 64); err == nil && n >= -16 && n <= 16 {
+			return tok
+		}
+		return "const(<big>)"
+	})
+}
+
 var execInputs = [][4]string{
 	{"0", "0", `""`, "nil"}, {"1", "2", `"abc"`, "[]int{1}"}, {"5", "-3", `"hello world"`, "[]int{3, 1, 2, 9}"},
 	{"-3", "5", `"x"`, "[]int{7, 7}"}, {"2", "17", `"key="`, "[]int{0, -1, 4, 4, 10}"}, {"17", "1", `"ABC"`, "nil"},
@@ -436,11 +455,19 @@ func suiteCollide(c *Ctx) error {
 				rp["ir"] = keepP[name].CanonicalIR
 				c.Violate("C03", "C03/collision-keepall:"+ed[0], fmt.Sprintf("%s: %s changes the outputs but the fingerprints (all literals kept) are equal", name, ed[1]), rp)
 			}
-			if defP[name].Fingerprint == defQ[name].Fingerprint {
+			// the documented exception of the default policy: P and Q that differ ONLY in literals it
+			// abstracts (strings, integers outside [-16,16]) - e.g. `31337 - 1` vs `1 - 31337`, folded by
+			// the compiler to two big constants - may share a default-policy fingerprint (C02 demands
+			// it), and `sfw diff`, which fingerprints under that policy, calls them preserved
+			onlyAbstracted := maskAbstractedLiterals(keepP[name].CanonicalIR) == maskAbstractedLiterals(keepQ[name].CanonicalIR)
+			if onlyAbstracted {
+				c.Count("differs_only_in_abstracted_literals")
+			}
+			if defP[name].Fingerprint == defQ[name].Fingerprint && !onlyAbstracted {
 				rp["ir"] = defP[name].CanonicalIR
 				c.Violate("C03", "C03/collision-default:"+ed[0], fmt.Sprintf("%s: %s changes the outputs but the default-policy fingerprints are equal", name, ed[1]), rp)
 			}
-			if derr == nil {
+			if derr == nil && !onlyAbstracted {
 				for _, fd := range dout.Functions {
 					if fd.Function == bare && fd.Status == "preserved" {
 						rp["diff_entry"] = fd
